@@ -8,7 +8,8 @@ RULE = ("random interleavings of declare / re-declare / assign / read over a 4-n
         "conditionals, loop bodies (fresh scope per iteration) and function bodies; every read is printed, every scope "
         "exit is followed by reads of all names; reads and assignments of names with no visible declaration are generated "
         "on purpose (10%) and must stop the program with a runtime error; `নাম x;` holds nil (checked through _টাইপ). "
-        "Compared with the Lean model and the structured semantics. Non-trivial: at least one shadowing declaration.")
+        "Compared with the Lean model and the structured semantics. Non-trivial: at least one shadowing declaration."
+        ' Shared name-collision family (props/collisions.py): 24 scenarios in which one name is bound more than once, x 2 layouts.')
 ASSUMPTIONS = ["dynamic scoping (a callee sees its caller's variables) is the language's rule and part of both oracles"]
 default_compare = lambda m, i: C.compare_run(m, i)
 NAMES = ["ক", "খ", "গ", "ঘ"]
@@ -162,4 +163,10 @@ def cases(rng, tier, stats):
     stats["argument_scope"] = nc
     stats["programs"] = n
     stats["shadowing_declarations"] = sh
+    # one name in two roles (props/collisions.py): shadowed functions, parameters named like globals / built-ins / their own function,
+    # bare conditions, indexed and plain writes, re-declarations — every use of a name resolves to its innermost binding
+    from props import collisions
+    nc_ = collisions.family()
+    out += nc_
+    stats["name_collision_programs"] = len(nc_)
     return out
